@@ -614,6 +614,8 @@ def errnos_for(call):
         return [EIO, EACCES]
     if n in ("copy_file_range", "sendfile"):
         return [EIO, ENOSPC]
+    if n == "mmap":
+        return [12]                               # ENOMEM: a file mapping is refused (vm.max_map_count)
     return []
 
 
